@@ -29,7 +29,8 @@ class Case:
 
 FN_NAMES = ["foo", "bar", "get_user", "arg0", "arg1", "x", "fetch", "_arg0", "handle"]
 TRAIT_NAMES = ["Foo", "Bar", "GetUser", "Fetch", "Handle", "Sync", "Send", "Impl", "Future"]
-DEP_BOUNDS = ["A", "B", "crate::Q", "C<i32>", "Clone", "'static", "?Sized", "for<'x> F<'x>", "Send", "core::fmt::Debug"]
+DEP_BOUNDS = ["A", "B", "crate::Q", "C<i32>", "Clone", "'static", "?Sized", "for<'x> F<'x>", "Send", "core::fmt::Debug",
+              "Sync", "self::Sync", "crate::marker::Send", "Sized", "my::Sync<i32>"]
 TYPES = ["i32", "&str", "String", "Vec<u8>", "(i32, i32)", "Option<i32>", "[u8; 4]", "&'static str", "u8",
          "Box<dyn Fn(i32) -> i32>", "impl Fn(i32) -> i32", "&mut i32", "fn(i32) -> i32", "<i32 as T2>::X"]
 RET_TYPES = [None, "i32", "()", "String", "Result<i32, String>", "Option<&'static str>", "impl Iterator<Item = i32>",
@@ -185,7 +186,7 @@ def gen_fn(rng, *, name=None, mode="fn", deps_kinds=None, allow_err=False, vis=N
     if kind == "ref_lt_generic" or kind == "concrete_ref_lt":
         if not any(p.startswith("'a") for p in params):
             params.insert(0, "'a")
-    ib = " + ".join(rng.sample(DEP_BOUNDS[:6], rng.choice([1, 1, 2, 3])))
+    ib = " + ".join(rng.sample(DEP_BOUNDS[:6] + ["Sync", "self::Sync", "Send"], rng.choice([1, 1, 2, 3])))
     deps_ty = {
         "ref_generic": "&" + deps_name, "ref_lt_generic": "&'a " + deps_name, "val_generic": deps_name,
         "ref_impl": "&impl " + ib.split(" + ")[0], "ref_paren_impl": "&(impl " + ib + ")", "val_impl": "impl " + ib,
@@ -266,6 +267,11 @@ def fam_fn_general(rng, n):
 
 DECOYS = [
     "fn private_fn(d: &impl A) {}",
+    "unsafe fn private_unsafe(d: &impl A, i: usize) -> i32 { 0 }",
+    "async fn private_async<D>(d: &D) {}",
+    "const fn private_const(d: &()) -> i32 { 1 }",
+    "extern \"C\" fn private_extern(d: &impl A) {}",
+    "const unsafe fn private_cu<D: A>(d: D) {}",
     "struct St { a: i32 }",
     "pub struct Pu;",
     "const K: i32 = { 1 + 2 };",
@@ -713,6 +719,10 @@ REGRESSION = [
     ("Foo, no_deps", "fn foo(a: i32,) {}"),
     ("Foo, no_deps", "fn foo(self, a: i32) {}"),
     ("Foo, no_deps", "mod m { pub fn foo(&self, a: i32) {} }"),
+    ("", "trait T { fn m(self, x: i32) -> i32; fn n(mut self); fn r(&self); fn t(self: &Self); fn b(self: Box<Self>); }"),
+    ("ref", "impl FooImpl for MyType { fn foo<'a, D>(d: &'a D, x: &'a i32) -> &'a i32 { x } fn bar<D>(d: &D) {} fn baz<D>(d: D) {} }"),
+    ("FooImpl, delegate_by = ref", "trait T { fn f<'a>(&'a self, x: &'a i32) -> &'a i32; fn g(&self); fn h(self); }"),
+    ("FooImpl, delegate_by = Deleg", "trait T { fn f<'a>(&'a self, x: &'a i32) -> &'a i32; fn g(&self); fn h(self); }"),
     ("pub(super) Foo", "mod m { pub fn foo(d: &impl A) {} }"),
     ("pub(self) Foo", "pub mod m { pub fn foo(d: &impl A) {} }"),
     ("pub(in self::super) Foo", "mod m { pub fn foo(d: &impl A) {} }"),
